@@ -1243,6 +1243,9 @@ class SmtLibParser(object):
         """(assert <term>)"""
         expr = self.get_expression(tokens)
         self.consume_closing(tokens, current)
+        if expr is None or not self.get_type(expr).is_bool_type():
+            raise PysmtSyntaxError("The asserted term is not a formula",
+                                   tokens.pos_info)
         return SmtLibCommand(current, [expr])
 
     def _cmd_assert_soft(self, current: str, tokens: Tokenizer) -> SmtLibCommand:
